@@ -214,7 +214,7 @@ impl Outcome {
             }
             Outcome::Unreadable(m) => format!("client error: {m}"),
             Outcome::Status(c) => format!("HTTP status {c}"),
-            Outcome::ClientPanic { file, msg } => format!("client panicked at {file}: {msg}"),
+            Outcome::ClientPanic { file, msg } => format!("client panicked at {file}: {}", msg.chars().take(160).collect::<String>()),
             Outcome::Trouble(m) => format!("no answer: {m}"),
         }
     }
@@ -426,10 +426,10 @@ pub fn judge_product_query(db: &DbDesc, recs: &[Rec<'_>], product: &str, ep: End
         }
     }
     let ctx = format!(
-        "product {product:?} {} over {}: {} [{}]; timestamps of the product: {:?}",
+        "product {product:?} {} over {}: {}{}; timestamps of the product: {:?}",
         ep.name(),
         tr.name(),
-        why.first().cloned().unwrap_or_default(),
+        if matches!(out, Outcome::Doc(_)) { format!("{}; ", why.first().cloned().unwrap_or_default()) } else { String::new() },
         out.describe(),
         recs.iter().map(|r| r.time_str.as_str()).collect::<Vec<_>>()
     );
